@@ -3,6 +3,10 @@ CONSTANT Procs = {"p1", "p2", "p3"}
 CONSTANT Jobs = {"a", "b", "c", "d"}
 CONSTANT StrictEvents = FALSE
 CONSTANT FixF5 = FALSE
+CONSTANT FixF23 = FALSE
+CONSTANT FixF26 = FALSE
+CONSTANT FixF27 = FALSE
+CONSTANT FixF28 = FALSE
 CONSTANT AddFirst = TRUE
 CONSTRAINT Progress
 POSTCONDITION Accepted
